@@ -89,8 +89,18 @@ Definition token_is_jwt (c : client) (gt : grant_type) : bool :=
 Definition make_token (n : nat) (c : client) (gt : grant_type) : id * id :=
   if token_is_jwt c gt then (mint n KAtJwt, mint n KJti) else (mint n KAtOpaque, mint n KAtOpaque).
 
-Definition should_issue_refresh (cfg : config) (c : client) (gt : grant_type) : bool :=
-  andb (cf_issue_refresh cfg) (andb (has_grant GRefreshToken (c_grants c)) (negb (gt_eqb gt GClientCredentials))).
+(* the embedder's function, evaluated on the grant type and the ACTIVE scopes of the grant info *)
+Definition issue_policy (f : issue_pol) (gt : grant_type) (active : string) : bool :=
+  match f with
+  | IssueNever => false
+  | IssueAlways => true
+  | IssueIfOffline => mem "offline_access" (split_with_spaces active)
+  | IssueCodeOnly => gt_eqb gt GAuthorizationCode
+  end.
+(* ctx.ShouldIssueRefreshToken: function set, client registered for refresh_token, not client_credentials *)
+Definition should_issue_refresh (cfg : config) (c : client) (gt : grant_type) (active : string) : bool :=
+  andb (issue_policy (cf_issue_refresh cfg) gt active)
+       (andb (has_grant GRefreshToken (c_grants c)) (negb (gt_eqb gt GClientCredentials))).
 
 Definition new_grant (n : nat) (now : Z) (cfg : config) (tokid : id) (gt : grant_type)
   (sub : string) (cid : id) (active granted : string) (jkt x5t : id) (active_res granted_res : list string) : gsession :=
@@ -113,7 +123,7 @@ Definition resources_out (cfg : config) (active requested_at_authz : list string
   if andb (cf_resource_enabled cfg) (negb (res_eqb active requested_at_authz)) then active else [].
 
 Definition with_refresh (n : nat) (now : Z) (cfg : config) (c : client) (g : gsession) : gsession :=
-  if should_issue_refresh cfg c (g_type g)
+  if should_issue_refresh cfg c (g_type g) (g_active g)
   then g <| g_refresh := mint n KRefresh |> <| g_expires := (now + cf_refresh_lifetime cfg)%Z |>
   else g.
 
